@@ -19,8 +19,8 @@
 EXTENDS Naturals, Integers, Sequences, FiniteSets, TLC, Json, IOUtils
 
 Traces == JsonDeserialize(IOEnv.TRACE_FILE)
-VARIABLES tid, l, st, fut, cst, pend, open, crashed, fwd, awc, bad
-vars == <<tid, l, st, fut, cst, pend, open, crashed, fwd, awc, bad>>
+VARIABLES tid, l, st, fut, cst, pend, open, crashed, fwd, awc, rep, due, owe, bad
+vars == <<tid, l, st, fut, cst, pend, open, crashed, fwd, awc, rep, due, owe, bad>>
 \* st[k]   task status: "none" | "submitted" | "started" | "ended" | "raised"
 \* fut[f]  [owner, kids, consumed, cancelled, seen]
 \* cst[c]  compilation: [s |-> "absent"|"running"|"cancelled", delivered |-> BOOLEAN, failed |-> BOOLEAN]
@@ -28,6 +28,11 @@ vars == <<tid, l, st, fut, cst, pend, open, crashed, fwd, awc, bad>>
 \* open[c] client connection believed usable
 \* fwd[k]  set of workers task k was forwarded to
 \* awc[c]  compilation c has a task that awaited a cancelled future (its failure is then legitimate)
+\* rep[k]  the worker that ran task k has told its boss that k is finished (RESULT or UPDATE put on its channel)
+\* due[k]  task body k raised at a moment when, by this specification's own reckoning over the trace so far, neither k nor an
+\*         ancestor was cancelled work, its compilation was not cancelled and its client was connected: the runtime owes that
+\*         client the error
+\* owe[c]  the due errors of client c that were raised before c last saw the system settle: they are all in c's connection now
 
 T == Traces[tid]
 E == T.ev[l]
@@ -47,6 +52,9 @@ Init == /\ tid \in 1..Len(Traces) /\ l = 1 /\ bad = "none"
         /\ crashed = FALSE
         /\ fwd = [k \in 1..Traces[tid].nt |-> {}]
         /\ awc = [c \in 1..Traces[tid].nc |-> FALSE]
+        /\ rep = [k \in 1..Traces[tid].nt |-> FALSE]
+        /\ due = [k \in 1..Traces[tid].nt |-> FALSE]
+        /\ owe = [c \in 1..Traces[tid].ncl |-> {}]
 
 RECURSIVE Anc(_)
 Anc(k) == IF k = 0 THEN {} ELSE {k} \cup Anc(T.parent[k])
@@ -92,6 +100,7 @@ TaskVerdict ==
     [] E.e = "Forward" ->      \* C15: each submitted task reaches exactly one worker
          IF st[E.t] = "none" THEN "forward-of-unsubmitted-task"
          ELSE IF fwd[E.t] # {} THEN "task-forwarded-twice" ELSE "ok"
+    [] E.e = "Report" -> "ok"     \* a worker told its boss that task E.t is finished (bookkeeping ground truth for the idle snapshot)
 
 \* a client reply.  E.kind: "ok" (submit / cancel / close acknowledged) | "status" (E.s = RUNNING/DONE/UNKNOWN)
 \* | "result" (E.v = value) | "error" (E.cause: "task" with E.boom = ids whose message is carried, "await-cancelled",
@@ -116,11 +125,21 @@ ErrorVerdict(c) ==      \* an error reply about compilation c (0 = about no part
          ELSE IF E.call = "result" /\ ~(c \in Comps /\ T.cowner[c] = E.c /\ cst[c].s = "running" /\ ~cst[c].delivered) THEN "ok"
          ELSE "request-unanswered"
   ELSE "error-not-raised-by-any-task-body"
+LateErrors(c) == {k \in owe[c] : cst[T.tcomp[k]].s = "running"}
 ClientVerdict ==
   CASE E.e = "ClientCall" -> IF pend[E.c].call # "none" THEN "harness-overlapping-calls" ELSE "ok"
     [] E.e = "ClientReturn" ->
          IF pend[E.c].call # E.call THEN "harness-unmatched-return"
          ELSE IF E.kind = "error" THEN ErrorVerdict(E.cid)
+         \* C13, "an exception raised by any task is reported to the client, never a hang or a silent loss" - weakest sound
+         \* reading.  The runtime may drop an error only for work it knows to be cancelled; the CANCEL travels by messages
+         \* while this trace is ordered globally, so an error is only DEMANDED when the raise precedes, in the trace, every
+         \* event that makes the task cancelled work (due, set at TaskRaise) and the client never cancelled that compilation.
+         \* The client learns of errors only inside a request (close() swallows them), so the demand falls on the first
+         \* request of that client that is answered after the client saw the system settle (everything in flight has arrived):
+         \* it must fail with a task error (which one of several is free: the client drops its connection on the first).
+         ELSE IF ~crashed /\ open[E.c] /\ E.call \in {"submit", "status", "result", "cancel"} /\ LateErrors(E.c) # {}
+              THEN "raised-error-never-reported"
          ELSE IF crashed /\ E.kind # "result" /\ E.call # "close" THEN "ok"    \* replies that were already in flight
          ELSE IF E.call = "submit" THEN (IF E.kind = "ok" THEN "ok" ELSE "bad-reply-kind")
          ELSE IF E.call = "close" THEN "ok"
@@ -154,19 +173,26 @@ BossVerdict ==
   ELSE "ok"
 
 \* idle snapshot: E.blocked = clients with a call that never returned; E.alive = runtime nodes still running;
-\* E.residue = sequence of [tab, kind ("task"|"future"|"comp"), id]; E.srv = <<total, idle, sum of employee task counts>> of the
-\* top server (or <<0,0,0>> when it is gone); E.final = this is the last snapshot of the run
+\* E.residue = sequence of [tab, kind ("task"|"future"|"comp"|"client"|"orphan"), id] - EVERY entry of every table of every node;
+\* E.srv = <<total, idle, sum of employee task counts>> of the top server (or <<0,0,0>> when it is gone), E.emps = its employees'
+\* <<task count, idle count, workers>>; E.final = this is the last snapshot of the run; E.how = "livelock" when the run did not
+\* fall idle within its step bound (then the snapshot only says who is blocked and which nodes are still running)
 ResidueCancelled(r) ==
   CASE r.kind = "task" -> r.id \in Tasks /\ CancelledTask(r.id)
     [] r.kind = "future" -> r.id \in Futs /\ (fut[r.id].cancelled \/ (fut[r.id].owner # 0 /\ CancelledTask(fut[r.id].owner)))
-    [] r.kind = "comp" -> r.id \in Comps /\ CompCancelled(r.id)
+    \* a server row of a compilation: residue when the compilation is cancelled work or its client has disconnected (rows of
+    \* delivered results are kept on purpose only while their client is connected)
+    [] r.kind = "comp" -> r.id \in Comps /\ (CompCancelled(r.id) \/ ~open[T.cowner[r.id]])
+    [] r.kind = "client" -> r.id \in Clients /\ ~open[r.id]          \* the server's entry for a connection that is gone
+    [] r.kind = "orphan" -> TRUE                                     \* an entry that belongs to no compilation at all
     [] OTHER -> FALSE
 ResidueLive(r) ==     \* an unfinished, un-cancelled piece of work still sitting in a table although the system is idle
   CASE r.kind = "task" -> r.id \in Tasks /\ ~CancelledTask(r.id) /\ st[r.id] \in {"submitted", "started"} /\ ~FailedComp(T.tcomp[r.id])
     [] OTHER -> FALSE
 QuiescentVerdict ==
   IF E.blocked # <<>> THEN (IF crashed THEN "client-waits-forever-after-crash" ELSE "client-waits-forever")
-  ELSE IF crashed /\ E.final /\ E.alive # <<>> THEN "runtime-alive-after-crash"
+  ELSE IF crashed /\ (E.final \/ E.how = "livelock") /\ E.alive # <<>> THEN "runtime-alive-after-crash"
+  ELSE IF E.how = "livelock" THEN "no-progress-within-step-bound"     \* nobody is blocked, yet the runtime keeps stepping for ever
   ELSE IF crashed THEN "ok"
   ELSE IF \E i \in 1..Len(E.residue) : ResidueLive(E.residue[i]) THEN "live-task-never-finished"
   ELSE IF \E k \in Tasks : st[k] = "submitted" /\ ~CancelledTask(k) /\ ~FailedComp(T.tcomp[k]) /\ E.settled THEN "live-task-never-started"
@@ -177,16 +203,34 @@ QuiescentVerdict ==
                 \* which kind of left-over: a task by how far it got, a mailbox by whether its owner is itself cancelled work
                 how == CASE r.kind = "task" -> st[r.id]
                          [] r.kind = "future" -> IF fut[r.id].owner # 0 /\ CancelledTask(fut[r.id].owner) THEN "owner-cancelled" ELSE "owner-live"
+                         [] r.kind = "client" -> "connection"
+                         [] r.kind = "orphan" -> "orphan"
                          [] OTHER -> "compilation"
             IN "residue-of-cancelled-work:" \o r.tab \o ":" \o how
-  ELSE IF T.flat /\ E.settled /\ E.srv[1] > 0 /\ (E.srv[2] # E.srv[1] \/ E.srv[3] # 0) THEN "idle-belief-at-quiescence"
   ELSE "ok"
 
+\* C15, "when the system falls idle a server that manages its workers directly believes all of them idle with zero outstanding
+\* tasks".  These verdicts are SOFT: they are printed and the trace goes on (they say nothing about the events that follow).
+\*   idle-workers  the idle count equals the number of workers (no known defect touches this: it must hold with cancellations too)
+\*   task-count    the per-worker task counts are zero.  The recorded finding (workers drop cancelled tasks without telling their
+\*                 boss) explains a count that is left over for tasks the worker was given (Forward), never reported as finished
+\*                 (Report) and that are cancelled work / belong to a failed compilation: "explained".  Anything beyond that -
+\*                 a count kept for a task whose completion WAS reported - is "unexplained".
+Unreported(w) == {k \in Tasks : fwd[k] = {w} /\ ~rep[k]}
+Excusable(k) == CancelledTask(k) \/ FailedComp(T.tcomp[k]) \/ awc[T.tcomp[k]]
+IdleBeliefApplies == E.e = "Quiescent" /\ ~crashed /\ E.blocked = <<>> /\ E.how # "livelock" /\ T.flat /\ E.settled /\ E.srv[1] > 0
+SoftVerdicts ==
+  IF ~IdleBeliefApplies THEN {}
+  ELSE (IF E.srv[2] # E.srv[1] THEN {"idle-belief-at-quiescence:idle-workers"} ELSE {})
+       \cup (IF \E i \in 1..Len(E.emps) : E.emps[i][1] > Cardinality({k \in Unreported(i - 1) : Excusable(k)})
+             THEN {"idle-belief-at-quiescence:task-count:unexplained"}
+             ELSE IF E.srv[3] # 0 THEN {"idle-belief-at-quiescence:task-count:explained"} ELSE {})
+
 Verdict ==
-  CASE E.e \in {"TaskStart", "Submit", "TaskEnd", "TaskRaise", "AwaitCall", "AwaitReturn", "NextReturn", "Cancel", "Forward"} -> TaskVerdict
+  CASE E.e \in {"TaskStart", "Submit", "TaskEnd", "TaskRaise", "AwaitCall", "AwaitReturn", "NextReturn", "Cancel", "Forward", "Report"} -> TaskVerdict
     [] E.e \in {"ClientCall", "ClientReturn", "Probe"} -> ClientVerdict
     [] E.e = "BossState" -> BossVerdict
-    [] E.e \in {"Crash", "NodeExit"} -> "ok"      \* (NodeExit: a runtime process ended; judged against Shutdown.tla, not here)
+    [] E.e \in {"Crash", "NodeExit", "Settle"} -> "ok"      \* (NodeExit: a runtime process ended; judged against Shutdown.tla, not here)
     [] E.e = "Quiescent" -> QuiescentVerdict
     [] OTHER -> "unknown-event"
 
@@ -207,6 +251,12 @@ Apply ==
               [] OTHER -> fut
   /\ awc' = IF E.e = "AwaitCall" /\ fut[E.f].cancelled THEN [awc EXCEPT ![T.tcomp[E.t]] = TRUE] ELSE awc
   /\ fwd' = IF E.e = "Forward" THEN [fwd EXCEPT ![E.t] = @ \cup {E.w}] ELSE fwd
+  /\ rep' = IF E.e = "Report" /\ E.t \in Tasks THEN [rep EXCEPT ![E.t] = TRUE] ELSE rep
+  /\ due' = IF E.e = "TaskRaise" /\ ~crashed /\ ~CancelledTask(E.t) /\ open[T.cowner[T.tcomp[E.t]]]
+            THEN [due EXCEPT ![E.t] = TRUE] ELSE due
+  /\ owe' = CASE E.e = "Settle" -> [owe EXCEPT ![E.c] = {k \in Tasks : due[k] /\ T.cowner[T.tcomp[k]] = E.c}]
+               [] E.e = "ClientReturn" -> [owe EXCEPT ![E.c] = {}]
+               [] OTHER -> owe
   /\ pend' = CASE E.e = "ClientCall" -> [pend EXCEPT ![E.c] = [call |-> E.call, cid |-> E.cid]]
                [] E.e = "ClientReturn" -> [pend EXCEPT ![E.c] = NoCall]
                [] OTHER -> pend
@@ -229,9 +279,10 @@ Apply ==
 
 Step ==
   /\ bad = "none" /\ l <= Len(T.ev)
+  /\ \A s \in SoftVerdicts : PrintT(<<"VERDICT", tid, l, s>>)
   /\ LET v == Verdict IN
      IF v = "ok" THEN Apply /\ l' = l + 1 /\ bad' = bad
-     ELSE /\ bad' = v /\ PrintT(<<"VERDICT", tid, l, v>>) /\ UNCHANGED <<l, st, fut, cst, pend, open, crashed, fwd, awc>>
+     ELSE /\ bad' = v /\ PrintT(<<"VERDICT", tid, l, v>>) /\ UNCHANGED <<l, st, fut, cst, pend, open, crashed, fwd, awc, rep, due, owe>>
   /\ tid' = tid
 Spec == Init /\ [][Step]_vars
 =============================================================================
